@@ -73,10 +73,15 @@ func init() {
 	implOps["auth2_unmarshal"] = func(a []string) []string {
 		in := unhx(a[0])
 		buf := bytes.NewBuffer(in)
+		// the receiver has decoded another descriptor before (every other call): nothing of that may remain
 		var v signature.EFIVariableAuthentication2
+		if len(in)%2 == 0 {
+			v = prevAuth2
+		}
 		if err := v.Unmarshal(buf); err != nil {
 			return []string{"err"}
 		}
+		prevAuth2 = v
 		left := buf.Len()
 		for i := range in {
 			in[i] = 0xAA
@@ -131,7 +136,7 @@ func init() {
 			fmt.Sprint(left), hx(wb.Bytes())}
 	}
 	checkers["C10"] = checker{
-		rule: "descriptors built field by field (any timestamp incl. non-zero pad/nanosecond/timezone fields, certificate data 0..tier bound, any type GUID, any payload), the sbvarsign fixtures, and near-valid mutants (every truncation class, dwLength below/above the data, wrong revision, wrong certificate type), bare WIN_CERTIFICATEs of every certificate type and length residue mod 8 followed by a payload; each is decoded by the implementation in a sandboxed worker through ReadEFIVariableAuthencation2 (over a byte reader and over readers offering only Read -- whole, half and one byte at a time --, which count what was taken), Unmarshal and ReadWinCertificate (over a reader or a bytes.Buffer which the caller overwrites and reuses before re-encoding the value), and R_C10 (extracted) compares fields, bytes left in the reader and the re-encoding; non-trivial = the model decodes the input successfully; distinct by input hash",
+		rule: "descriptors built field by field (any timestamp incl. non-zero pad/nanosecond/timezone fields, certificate data 0..tier bound, any type GUID, any payload), the sbvarsign fixtures, and near-valid mutants (every truncation class, dwLength below/above the data, wrong revision, wrong certificate type), bare WIN_CERTIFICATEs of every certificate type and length residue mod 8 followed by a payload; each is decoded by the implementation in a sandboxed worker through ReadEFIVariableAuthencation2 (over a byte reader and over readers offering only Read -- whole, half and one byte at a time --, which count what was taken), Unmarshal (into a fresh receiver and into one that decoded another descriptor before) and ReadWinCertificate (over a reader or a bytes.Buffer which the caller overwrites and reuses before re-encoding the value), and R_C10 (extracted) compares fields, bytes left in the reader and the re-encoding; non-trivial = the model decodes the input successfully; distinct by input hash",
 		run:  runC10,
 	}
 }
@@ -146,6 +151,9 @@ func genTime(rng *rand.Rand) util.EFITime {
 	}
 	return t
 }
+
+// the value the last auth2_unmarshal call of this worker decoded
+var prevAuth2 signature.EFIVariableAuthentication2
 
 func encAuth2(t util.EFITime, length uint32, rev uint16, typ uint16, g util.EFIGUID, data []byte) []byte {
 	var b bytes.Buffer
@@ -216,10 +224,21 @@ func runC10(c *Ctx) {
 		if i%211 == 0 {
 			dl = 65536
 		}
+		if i%13 == 5 {
+			dl = 0 // no certificate data at all: dwLength 24
+		}
 		data := randBytes(rng, dl)
 		g, _ := genGUID(rng)
 		if rng.Intn(2) == 0 {
 			g = signature.EFI_CERT_TYPE_PKCS7_GUID
+		} else if rng.Intn(4) == 0 {
+			// the other type GUIDs the specification defines for this certificate (and the signature-list
+			// type GUIDs, which are not certificate types at all): the data is as long as dwLength says
+			g = pick(rng, []util.EFIGUID{signature.EFI_CERT_TYPE_RSA2048_SHA256_GUID, signature.CERT_RSA2048_GUID, signature.CERT_X509_GUID, signature.CERT_SHA256_GUID})
+			if rng.Intn(2) == 0 {
+				data = randBytes(rng, pick(rng, []int{527, 528, 529, 600, 16 + 256 + 256 + 112}))
+				dl = len(data)
+			}
 		}
 		payload := randBytes(rng, rng.Intn(64))
 		length := uint32(24 + dl)
